@@ -90,6 +90,7 @@ func configs() []*Config {
 		{Name: "vp8-pre511", Codec: "vp8", PreN: 256, PreF0: 3, V: []VF{d(1, 1, 1), d(1, 1), d(1)}},
 		{Name: "vp8-pre512", Codec: "vp8", PreN: 257, V: []VF{d(1, 1), d(1, 1, 1), d(1)}},
 		{Name: "opus-pre", PreA: 94, PreALoss: 31, A: []int{1, 1, 1, 1, 1, 1}},
+		{Name: "vp8+opus-lostkey", Codec: "vp8", PreN: 400, PreKeyLost: true, V: []VF{k(0, 1), d(1), d(1)}, A: []int{1, 1, 1, 1, 1}, AOff: 5},
 		{Name: "vp9", Codec: "vp9", V: []VF{k(0, 1, 2), d(1), d(1200, 1)}},
 		{Name: "h264", Codec: "h264", V: []VF{k(0, 2, 2), d(2), d(2, 1200, 2)}},
 	}
@@ -700,7 +701,11 @@ func replay(path string) {
 	for _, b := range v.blocks {
 		fr := "??"
 		if b.frame >= 0 {
-			if b.frame < a.Replay.Config.PreN+a.Replay.Config.PreA-2 {
+			pre := a.Replay.Config.PreN
+			if b.track == trA {
+				pre = a.Replay.Config.PreA
+			}
+			if b.frame < pre-2 {
 				continue
 			}
 			fr = st.fname(b.track, b.frame)
